@@ -88,6 +88,28 @@ def flat_stmts(block):
             yield s
 
 
+def def_chain(fn, e, depth=4):
+    """e and, transitively, the initialisers of the local variables it mentions (single-definition locals only)."""
+    seen = set()
+    todo = [(e, 0)]
+    inits = None
+    while todo:
+        x, d = todo.pop(0)
+        yield x
+        if d >= depth:
+            continue
+        for y in walk(x):
+            if y.get("k") == "DeclRefExpr" and isinstance(y.get("ref"), dict) and y["ref"].get("dk") == "Var" and y["ref"].get("did") not in seen:
+                seen.add(y["ref"]["did"])
+                if inits is None:
+                    inits = {}
+                    for v in walk(fn["body"]):
+                        if v.get("k") == "Var" and isinstance(v.get("init"), dict):
+                            inits.setdefault(v.get("did"), []).append(v["init"])
+                for i in inits.get(y["ref"]["did"], []):
+                    todo.append((i, d + 1))
+
+
 def is_call(n):
     return n.get("k") in ("CallExpr", "CXXMemberCallExpr", "CXXOperatorCallExpr", "CXXConstructExpr",
                           "CXXTemporaryObjectExpr")
